@@ -19,6 +19,11 @@ pub fn generate(r: &mut Prng, seed: u64, run: u64) -> Scenario {
     cfg.names = cfg.names.min(2);
     cfg.cap_paths = true;
     cfg.n_terms = cfg.n_terms.min(60);
+    if r.chance(1, 15) {
+        // deep or wide graphs so that a request retains more than 30 terms (groups beyond the inline storage)
+        cfg.n_terms = r.urange(40, 90);
+        cfg.shape = *r.pick(&[0u8, 0, 2, 3]);
+    }
     cfg.max_recs = [r.urange(0, 8), r.urange(0, 6), r.urange(0, 6)];
     let mut facts = gen_facts(r, &cfg);
     // annotations on phenotype terms, modifier descendants and modifier roots
